@@ -30,8 +30,9 @@ META = dict(
          "the bounds; seeded schedules of the real engine (yield points: every pool atomic, every task boundary, every "
          "thread-locked stack reservation) must give bit-identical contacts, forces, accelerations, sensors and next "
          "state, and every recorded trace must be a behaviour of the specification.",
-    note="The data-race clause (TSan) is not decided: plain memory accesses are not yield points; schedules are explored "
-         "under sequential consistency at the listed yield points. Tactile-sensor tasks are not exercised. Trusted: TLC, "
+    note="The data-race clause is decided by ThreadSanitizer on free-running runs only (outside the TLA+ family: plain "
+         "memory accesses are not yield points of the controlled scheduler, whose schedules are explored under sequential "
+         "consistency at the listed yield points). Tactile-sensor tasks are not exercised. Trusted: TLC, "
          "shim/sched, harnesses parstep_drv.cc / parfree_drv.cc, the guarded hook in engine_memory.c.",
     ref="DESIGN.md section 4 C02")
 
@@ -47,6 +48,27 @@ def h_sched():
 
 def h_free():
     return build.build_harness("parfree_drv", [VERIF + "/harness/parfree_drv.cc"])
+
+
+def h_tsan():
+    """the same free-running harness and the whole engine compiled with clang -fsanitize=thread"""
+    return build.build_harness("parfree_drv", [VERIF + "/harness/parfree_drv.cc"], variant="tsan")
+
+
+def tsan_reports(err):
+    """ThreadSanitizer stderr -> list of (kind, function of the first frame of the first stack)"""
+    out = []
+    blocks = err.split("WARNING: ThreadSanitizer: ")[1:]
+    for b in blocks:
+        kind = b.split("(pid", 1)[0].strip()
+        fn = "?"
+        for l in b.splitlines():
+            l = l.strip()
+            if l.startswith("#0 "):
+                fn = l.split()[1]
+                break
+        out.append((kind, fn))
+    return out
 
 
 def models(rng):
@@ -277,15 +299,59 @@ def run(ctx):
                           {"mode": "free", "input": inp_of(c, 25)})
         else:
             ctx.trace_ok()
+    # data-race clause: the same free-running runs on a ThreadSanitizer build of engine + harness
+    exet = h_tsan()
+    tcombos = []
+    for (name, m, sets) in pool:
+        for solver in (solvers if not ctx.quick else solvers[:1]):
+            for mode in (("step",) if ctx.quick else ("step", "inverse")):
+                for nth in ((4,) if ctx.quick else (2, 4, 8)):
+                    tcombos.append((name, m, sets, solver, rng.choice([0, 1]), mode, nth, 0))
+    tenv = dict(os.environ, TSAN_OPTIONS="halt_on_error=0 exitcode=0 report_signal_unsafe=0 history_size=4")
+
+    def onet(c, extra=()):
+        p = subprocess.run([exet], input="\n".join(inp_of(c, reps=2 if ctx.quick else 6) + list(extra)) + "\n",
+                           capture_output=True, text=True, timeout=900, env=tenv)
+        return p.returncode, p.stdout, p.stderr
+
+    with cf.ThreadPoolExecutor(4) as ex:
+        touts = list(ex.map(onet, tcombos))
+    for c, (rc, out, err) in zip(tcombos, touts):
+        label = {"tsan": True, "model": c[0], "solver": c[3], "cone": c[4], "mode": c[5], "nthread": c[6]}
+        ctx.case(label, nontrivial=True)
+        reps = [l for l in out.splitlines() if l.startswith("rep ")]
+        rs = tsan_reports(err)
+        if rc != 0 or not reps:
+            ctx.violation("tsan:crash", "ThreadSanitizer run of %s died (rc %s): %s" % (label, rc, err[-300:]),
+                          {"mode": "tsan", "input": inp_of(c, 2)})
+        elif rs:
+            for kind, fn in sorted(set(rs)):
+                ctx.violation("tsan:%s:%s" % (kind.replace(" ", "-"), fn),
+                              "ThreadSanitizer reports a %s in %s during mj_%s with a pool of %d threads (model %s, solver %d)"
+                              % (kind, fn, c[5], c[6], c[0], c[3]), {"mode": "tsan", "input": inp_of(c, 2)})
+        else:
+            ctx.trace_ok()
+    rc, out, err = onet(tcombos[0], extra=("racy",))
+    ctx.control("tsan: two OS threads calling mj_forward on one mjData are reported as a data race",
+                any(k == "data race" for k, _ in tsan_reports(err)))
+    ctx.assume("data-race clause: decided by ThreadSanitizer (clang 14) on the free-running harness for the OS schedules "
+               "that occurred in %d runs; the controlled scheduler does not observe plain memory accesses" % len(tcombos))
     ctx.cov["rule"] = ("%d scheduled runs (model x solver x cone x mode x pool size x schedule seed) with %d multi-task "
                        "dispatches, each compared bytewise after every call and trace-validated; %d free-running configurations; "
-                       "non-trivial = at least one dispatch with >= 2 tasks" % (len(combos), ndisp, len(fcombos)))
+                       "%d ThreadSanitizer runs; non-trivial = at least one dispatch with >= 2 tasks" % (len(combos), ndisp, len(fcombos), len(tcombos)))
     ctx.cov["exhaustive"] = False
 
 
 def replay(ctx, rp):
     r = rp["replay"]
-    if r.get("mode") in ("sched", "free") and "input" in r:
+    if r.get("mode") == "tsan" and "input" in r:
+        p = subprocess.run([h_tsan()], input="\n".join(r["input"]) + "\n", capture_output=True, text=True, timeout=900,
+                           env=dict(os.environ, TSAN_OPTIONS="halt_on_error=0 exitcode=0 report_signal_unsafe=0"))
+        rs = tsan_reports(p.stderr)
+        print("rc", p.returncode, "reports:", sorted(set(rs))[:5])
+        if p.returncode != 0 or rs:
+            ctx.violation(rp["signature"], rp["what"], r)
+    elif r.get("mode") in ("sched", "free") and "input" in r:
         exe = h_sched() if r["mode"] == "sched" else h_free()
         p = subprocess.run([exe], input="\n".join(r["input"]) + "\n", capture_output=True, text=True, timeout=600)
         bad = [l for l in p.stdout.splitlines() if ('"cmp"' in l and '"eq"' not in l) or (l.startswith("rep ") and " eq " not in l)]
